@@ -2458,6 +2458,9 @@ class ProvDocument(ProvBundle):
         if valid_id in self._bundles:
             raise ProvException("A bundle with that identifier already exists")
         b = ProvBundle(identifier=valid_id, document=self)
+        # the identifier is read in the scope of the bundle by the
+        # serializations: register its namespace there, too
+        b._identifier = b.valid_qualified_name(valid_id)
         self._bundles[valid_id] = b
         return b
 
